@@ -473,6 +473,22 @@ def array_attr(np_, a, name):
     if name == "cumsum":
         def cumsum(axis=None, dtype=None, **k):
             # running sums: element k is the recursive sum of the first k + 1 elements (accumulator type asked from numpy)
+            if a.ndim == 2 and isinstance(raw(axis), int) and not isinstance(raw(axis), bool):
+                # along one axis of a 2-D array: element (i, j) is the recursive sum of the first i + 1 (j + 1) elements of column j (row i)
+                d = raw(axis) % 2
+                kd = kind_of_dtype(a.dtype)
+                if kd == "bool":
+                    raise Untranslatable("cumsum of bool symbolic-extent array")
+                dt = _np.ones((1, 1), a.dtype).cumsum(axis=d, dtype=None if dtype is None else _np.dtype(dtype)).dtype
+                if kind_of_dtype(dt) != kd:
+                    raise Untranslatable("cumsum into another kind of dtype on a symbolic-extent array")
+                t = z3.Int(np_.I.ctx.fresh_name("t"))
+                src = a.term
+
+                def running(i, j):
+                    line = z3.Lambda([t], z3.Select(src, t, j) if d == 0 else z3.Select(src, i, t))
+                    return sum_fn(kd)(line, z3.IntVal(0), (i if d == 0 else j) + 1)
+                return from_fn(np_, a.shape, dt, running)
             if a.ndim != 1:
                 raise Untranslatable("cumsum of n-d symbolic-extent array")
             kd = kind_of_dtype(a.dtype)
